@@ -215,6 +215,8 @@ class Run:
         rel.daemon = True
         # a timed-out get on a blocked task must raise OSError and not cancel it
         self.get_checks = []
+        self.cowaits = []
+        self.cowait_threads = []
         t0 = time.monotonic()
         if prog["get_timeout_on_block"] and not prog["gated"]:
             for tasks in prog["spawners"]:
@@ -224,6 +226,18 @@ class Run:
                             time.sleep(0)
                         r = self.replies.get(tid)
                         if r is not None and not self.release.is_set():
+                            # several threads wait for this one task while it is still running: each gets the outcome
+                            def cowait(r=r, tid=tid):
+                                try:
+                                    self.cowaits.append((tid, "value", r.get(timeout=10.0)))
+                                except OSError as e:
+                                    self.cowaits.append((tid, "OSError", str(e)))
+                                except BaseException as e:  # noqa
+                                    self.cowaits.append((tid, type(e).__name__, str(e)))
+
+                            self.cowait_threads = [threading.Thread(target=cowait, daemon=True) for _ in range(3)]
+                            for ct in self.cowait_threads:
+                                ct.start()
                             try:
                                 r.get(timeout=0.001)
                                 self.get_checks.append((tid, "returned"))
@@ -251,6 +265,9 @@ class Run:
             if t.is_alive():
                 stuck.append(name)
         rel.cancel()
+        for ct in self.cowait_threads:
+            ct.join(max(0.1, deadline - (time.monotonic() - t0)))
+        self.cowaiters_blocked = sum(1 for ct in self.cowait_threads if ct.is_alive())
         self.stuck = stuck
         # final quiescent point: everything accepted must be finished, waitall must say so
         self.final_waitall = None
@@ -356,6 +373,14 @@ def check_history(res: Result, run: Run, label: str):
             except BaseException as e:  # noqa
                 res.violation(mech(f"reply-get-raised-{type(e).__name__}"), f"{label}: task {tid} ({kinds[tid]})")
             res.count("replies_checked")
+    if run.cowait_threads and not run.stuck:
+        res.count("tasks_with_several_waiters")
+        tid0 = next((t for t, *_ in run.cowaits), None)
+        if run.cowaiters_blocked:
+            res.violation(mech("concurrent-waiter-never-woken"), f"{label}: {run.cowaiters_blocked} of {len(run.cowait_threads)} threads waiting in get() for one task are still blocked after it ended")
+        for tid, how, v in run.cowaits:
+            if tid in ends and (how, v) != ("value", ("value", tid)):
+                res.violation(mech("concurrent-waiter-got-wrong-outcome"), f"{label}: task {tid}: get() in one of {len(run.cowait_threads)} concurrent waiters -> {how}: {v!r}")
     for tid, outcome in run.get_checks:
         res.count("timed_get_checks")
         if outcome != "OSError" and tid not in ends:
